@@ -101,7 +101,20 @@ func (x *Cell) Enumerate(name string, opts EnumOpts, body Body) {
 			nd++
 			return
 		}
-		x.confirm(4, func() { body(&Chooser{Prefix: c.Choices()}) })
+		// replays of the same execution (confirmation, determinism re-check) may diverge as well: never a crash
+		replay := func(c2 *Chooser) (e2 Exec, div bool) {
+			defer func() {
+				if r := recover(); r != nil {
+					if _, ok := r.(ErrDiverged); ok {
+						div = true
+						return
+					}
+					panic(r)
+				}
+			}()
+			return body(c2), false
+		}
+		x.confirm(4, func() { replay(&Chooser{Prefix: c.Choices()}) })
 		n++
 		x.Executions++
 		x.Outcome(name + "|" + e.Outcome)
@@ -110,8 +123,8 @@ func (x *Cell) Enumerate(name string, opts EnumOpts, body Body) {
 		}
 		if x.Executions%int64(recheck) == 1 {
 			c2 := &Chooser{Prefix: c.Choices()}
-			e2 := body(c2)
-			if e2.Outcome != e.Outcome || len(c2.Trace) != len(c.Trace) {
+			e2, div := replay(c2)
+			if div || e2.Outcome != e.Outcome || len(c2.Trace) != len(c.Trace) {
 				x.Note("nondeterministic_discarded", 1)
 				emit(map[string]any{"t": "nondet", "name": name, "choices": c.Choices(), "o1": e.Outcome, "o2": e2.Outcome})
 			}
